@@ -310,7 +310,9 @@ What the seventh round changed:
   iteration run on its own and the rest summarised, `for ... else` on loops of unknown length (a raise-only `else` is a guard; anything
   else is an analysis error instead of being skipped silently), `break` on a symbolic condition in a concrete loop (both outcomes), a
   generator whose body has effects and which is stored before it is consumed is an analysis error (its body would be run at the wrong
-  time), `Record(*t, field=v)` with a symbolic sequence, unbound `Class.method(obj, ...)`.
+  time), `Record(*t, field=v)` with a symbolic sequence, unbound `Class.method(obj, ...)`, generator-based context managers
+  (`contextlib.contextmanager`: the manager's body is run at the `with` statement and its `yield` runs the block, so whatever encloses the
+  yield - `torch.set_grad_enabled(...)`, `try`/`finally` - encloses the block).
 * **Rules judged by outcome instead of by call shape**: C17.R5 (a derivative's `to()`) demanded one call of `BasePrimary.to` per underlier
   with the caller's arguments - a template method with an `_apply_to` hook (F10-1) makes none; it is now a history on real objects (a
   derivative over two underliers, three request forms: both underliers declare the requested dtype / device afterwards, `self` is
